@@ -164,6 +164,30 @@ let handle toks =
       (match from_body c (bytes_of_hex d) with
        | Accept a -> "A " ^ show_assign a | Partial a -> "P " ^ show_assign a | Reject -> "R")
   | ["schemaok"; idx] -> let c = nth_cmd (int_of_string idx) in if schema_ok c.c_params then "1" else "0"
+  | "api" :: evs ->
+      let nat s = nat_of_int (int_of_string s) in
+      let ev_of t = match String.split_on_char ':' t with
+        | ["I"; rid; cls; b; n; tmo] -> EIssue (nat rid, ni cls, b = "1", nat n, ni tmo)
+        | ["A"; n] -> EAck (ni n)
+        | ["R"; cls] -> ERsp (ni cls)
+        | ["D"] -> EData
+        | ["T"; dt] -> ETick (ni dt)
+        | ["C"; rid] -> ECancel (nat rid)
+        | ["X"] -> EClose | ["L"] -> ELost | ["RB"] -> EResetBegin | ["RE"] -> EResetEnd
+        | _ -> failwith ("bad event " ^ t) in
+      let show_o = function
+        | OW (r, k, q) -> Printf.sprintf "W:%d.%d:%d" (int_of_nat r) (int_of_nat k) (int_of_n q)
+        | OK q -> "K:" ^ si q
+        | OE (r, o) -> Printf.sprintf "E:%d:%s" (int_of_nat r)
+            (match o with ORsp -> "R" | OTimeout -> "TIMEOUT" | OCancelled -> "CANCELLED" | ORuntime -> "RUNTIME")
+        | OL -> "L" in
+      let st = ref init in
+      let parts = List.map (fun t ->
+        let (s', os) = step_obs !st (ev_of t) in st := s';
+        String.concat " " (List.map show_o os)) evs in
+      let pending = List.length (List.filter (fun r ->
+        (match r.r_phase with PDone _ -> false | _ -> true) && (match r.r_fut with FPending -> true | _ -> false)) (!st).reqs) in
+      String.concat " / " parts ^ " // listeners=" ^ string_of_int pending ^ " seq=" ^ si (!st).pack_seq
   | ["reasm"; b] ->
       (* wire bytes -> spec parse -> data frames -> reassembly: the messages handed to dispatch *)
       let frames = List.filter (fun w -> not w.w_ack) (List.map snd (spec_parse_pos (bytes_of_hex b))) in
